@@ -132,6 +132,7 @@ func c27(c *an.Check) {
 		}})
 	pubmessageObligations(c)
 	signedMsgCore(c)
+	sweepObligations(c)
 	floodsubLockset(c)
 }
 
@@ -142,7 +143,179 @@ func floodsubLockset(c *an.Check) {
 		g = append(g, fv(c, fsPkg, "FloodSub", f))
 	}
 	c.LockSet(an.LockSpec{Construct: "floodsub router state (FloodSub.mtx)", Guard: fv(c, fsPkg, "FloodSub", "mtx"), Guarded: g, Funcs: p.PkgFuncs(fsPkg), Min: 15})
-	c.LockSet(an.LockSpec{Construct: "floodsub subscription handlers (subscription.mtx)", Guard: fv(c, fsPkg, "subscription", "mtx"), Guarded: []*types.Var{fv(c, fsPkg, "subscription", "handlers")}, Funcs: p.PkgFuncs(fsPkg), Min: 4})
+	c.LockSet(an.LockSpec{Construct: "floodsub subscription handlers (subscription.mtx)", Guard: fv(c, fsPkg, "subscription", "mtx"), Guarded: []*types.Var{fv(c, fsPkg, "subscription", "handlers"), fv(c, fsPkg, "subscriptionHandler", "cb")}, Funcs: p.PkgFuncs(fsPkg), Min: 5})
+}
+
+// sweepObligations decides the bookkeeping of Execute's channel sweep: an empty channel entry is always removed (a stale
+// entry keeps the channel "subscribed" for handlePublish), a withdrawal forgets the announcement (so a later
+// re-subscription is announced again) and an announcement is remembered (so it is withdrawn later and not repeated).
+func sweepObligations(c *an.Check) {
+	p := c.P
+	exe := p.Func(fsPkg, "FloodSub", "Execute")
+	chF := fv(c, fsPkg, "FloodSub", "channels")
+	if exe == nil || chF == nil {
+		c.Undecided("MUSTCALL", "floodsub Execute sweep", nil, "unresolved anchor")
+		return
+	}
+	st := p.NewState(exe)
+	isLocalMap := func(v ssa.Value) bool {
+		for _, src := range waitSources(p, v) {
+			if _, ok := src.(*ssa.MakeMap); ok {
+				return true
+			}
+		}
+		_, ok := v.(*ssa.MakeMap)
+		return ok
+	}
+	loopHead := func(at *ssa.BasicBlock) func(*ssa.BasicBlock) bool {
+		loop := an.InnermostLoop(exe, at)
+		return func(b *ssa.BasicBlock) bool {
+			if loop == nil {
+				return false
+			}
+			if !loop[b] {
+				return true
+			}
+			// the header of the innermost loop = the block of it that dominates all others
+			for o := range loop {
+				if !b.Dominates(o) {
+					return false
+				}
+			}
+			return true
+		}
+	}
+	// (1) len(subscriptions)==0 => delete(m.channels, ch) before the next iteration
+	nEmpty, okEmpty, whyEmpty := 0, true, ""
+	for _, b := range exe.Blocks {
+		iff, ok := b.Instrs[len(b.Instrs)-1].(*ssa.If)
+		if !ok {
+			continue
+		}
+		for _, want := range []bool{true, false} {
+			x, y, r, isCmp := st.CondRel(iff.Cond, want)
+			if !isCmp || r != an.EQ || !an.IsIntConst(y, 0) || !an.LenOf(st, x, func(a ssa.Value) bool { return strings.Contains(a.Type().String(), "subscription") }) {
+				continue
+			}
+			succ := b.Succs[0]
+			if !want {
+				succ = b.Succs[1]
+			}
+			nEmpty++
+			ok, bad := an.MustExecBefore(succ.Instrs[0], func(ins ssa.Instruction) bool {
+				call, isCall := ins.(*ssa.Call)
+				return isCall && an.BuiltinName(call) == "delete" && an.IsFieldLoad(call.Call.Args[0], chF)
+			}, loopHead(b))
+			if call, isCall := succ.Instrs[0].(*ssa.Call); isCall && an.BuiltinName(call) == "delete" && an.IsFieldLoad(call.Call.Args[0], chF) {
+				ok = true
+			}
+			if !ok {
+				okEmpty = false
+				whyEmpty = fmt.Sprintf("from the empty-channel branch at %s a path reaches %s without delete(m.channels, ch): the entry stays and handlePublish keeps treating the channel as subscribed", blockPos(p, b), blockPos(p, bad))
+			}
+		}
+	}
+	c.Require(okEmpty && nEmpty == 1, "MUSTCALL", "floodsub Execute sweep always removes an empty channel entry", exe, "", nEmpty, "every path from len(subscriptions)==0 deletes the entry before the next iteration", func() string {
+		if whyEmpty != "" {
+			return whyEmpty
+		}
+		return fmt.Sprintf("%d empty-channel branches found (anchor drift)", nEmpty)
+	}())
+	// (2)/(3) announcements and withdrawals keep the announced-set in step
+	nAnn, nWd, okAnn, okWd, why := 0, 0, true, true, ""
+	for _, b := range exe.Blocks {
+		if an.InnermostLoop(exe, b) == nil {
+			continue
+		}
+		for _, ins := range b.Instrs {
+			al, ok := ins.(*ssa.Alloc)
+			if !ok || !isNamedPtr(al.Type(), "SubscriptionOpts") {
+				continue
+			}
+			// only the sweep's literals (their channel id comes from ranging over m.channels)
+			inSweep := false
+			for _, dc := range an.DominatingConds(ins) {
+				if x, _, _, isCmp := st.CondRel(dc.Cond, dc.Want); isCmp {
+					if lk, isLk := st.Canon(x).(*ssa.Extract); isLk {
+						if l, isL := lk.Tuple.(*ssa.Lookup); isL && isLocalMap(l.X) {
+							inSweep = true
+						}
+					}
+				}
+				if e, isE := dc.Cond.(*ssa.Extract); isE {
+					if l, isL := e.Tuple.(*ssa.Lookup); isL && isLocalMap(l.X) {
+						inSweep = true
+					}
+				}
+			}
+			if !inSweep {
+				continue
+			}
+			subscribe := false
+			for _, r := range *al.Referrers() {
+				fa, isFA := r.(*ssa.FieldAddr)
+				if !isFA || an.FieldOfAddr(fa) == nil || an.FieldOfAddr(fa).Name() != "Subscribe" {
+					continue
+				}
+				for _, rr := range *fa.Referrers() {
+					if stt, isSt := rr.(*ssa.Store); isSt && isTrueConst(stt.Val) {
+						subscribe = true
+					}
+				}
+			}
+			if subscribe {
+				nAnn++
+				ok, _ := an.MustExecBefore(ins, func(i ssa.Instruction) bool {
+					mu, isMU := i.(*ssa.MapUpdate)
+					return isMU && isLocalMap(mu.Map)
+				}, loopHead(b))
+				// the record may also precede the literal in the same block
+				for _, i := range b.Instrs {
+					if mu, isMU := i.(*ssa.MapUpdate); isMU && isLocalMap(mu.Map) {
+						ok = true
+					}
+				}
+				if !ok {
+					okAnn = false
+					why = fmt.Sprintf("the announcement built at %s is not recorded in the announced-set: it is repeated on every evaluation and never withdrawn", p.Pos(al.Pos()))
+				}
+			} else {
+				nWd++
+				isDel := func(i ssa.Instruction) bool {
+					call, isCall := i.(*ssa.Call)
+					return isCall && an.BuiltinName(call) == "delete" && isLocalMap(call.Call.Args[0])
+				}
+				ok, _ := an.MustExecBefore(ins, isDel, loopHead(b))
+				for _, i := range b.Instrs {
+					if isDel(i) {
+						ok = true
+					}
+				}
+				if !ok {
+					okWd = false
+					why = fmt.Sprintf("the withdrawal built at %s does not remove the channel from the announced-set: a later re-subscription is never announced to peers again", p.Pos(al.Pos()))
+				}
+			}
+		}
+	}
+	c.Require(okAnn && okWd && nAnn == 1 && nWd == 1, "MUSTCALL", "floodsub Execute sweep keeps the announced-set in step with what it tells peers", exe, "", nAnn+nWd, "announce => record; withdraw => forget", func() string {
+		if why != "" {
+			return why
+		}
+		return fmt.Sprintf("%d announcements / %d withdrawals found in the sweep (anchor drift)", nAnn, nWd)
+	}())
+}
+
+func blockPos(p *an.Prog, b *ssa.BasicBlock) string {
+	if b == nil {
+		return "the function exit"
+	}
+	for _, ins := range b.Instrs {
+		if ins.Pos().IsValid() {
+			return p.Pos(ins.Pos())
+		}
+	}
+	return fmt.Sprintf("block %d", b.Index)
 }
 
 func c28(c *an.Check) {
@@ -187,6 +360,67 @@ func c28(c *an.Check) {
 		})
 	}
 	c.Require(okP, "PROVENANCE", "floodsub execPublish forwards the queued message", ep, "", 1, "packet built from pubMsg.msg", "the forwarded packet is not built from the queued message")
+	// the queue entry carries the verified packet, its verified channel and the peer the packet arrived from
+	okQ, whyQ := false, "publishChMsg literal not found in handleValidMessage"
+	for _, b := range hvm.Blocks {
+		for _, ins := range b.Instrs {
+			al, ok := ins.(*ssa.Alloc)
+			if !ok || !isNamedPtr(al.Type(), "publishChMsg") {
+				continue
+			}
+			got := map[string]ssa.Value{}
+			for _, r := range *al.Referrers() {
+				if fa, isFA := r.(*ssa.FieldAddr); isFA && an.FieldOfAddr(fa) != nil {
+					for _, rr := range *fa.Referrers() {
+						if st, isSt := rr.(*ssa.Store); isSt {
+							got[an.FieldOfAddr(fa).Name()] = st.Val
+						}
+					}
+				}
+			}
+			okQ = true
+			if !an.IsParam(got["prevHopPeer"], 2) {
+				okQ, whyQ = false, "the queued prevHopPeer is not handleValidMessage's prevHopPeer argument (the stream the packet arrived on): the forwarder would echo the packet back to the peer it came from"
+			}
+			if !an.IsParam(got["msg"], 3) {
+				okQ, whyQ = false, "the queued msg is not the verified packet argument"
+			}
+			if gc := an.ResultCallTo(got["channelID"], an.R(pmPkg, "PubMessageInner", "GetChannel")); gc == nil || !an.IsParam(gc.Call.Args[0], 4) {
+				okQ, whyQ = false, "the queued channelID is not the verified inner's channel"
+			}
+		}
+	}
+	c.Require(okQ, "PROVENANCE", "floodsub handleValidMessage queues (verified packet, verified channel, arrival peer)", hvm, "", 3, "publishChMsg{msg: pkt, channelID: inner.GetChannel(), prevHopPeer: prevHopPeer}", whyQ)
+	okX, whyX := false, "execPublish call not found in Execute"
+	if exe := p.Func(fsPkg, "FloodSub", "Execute"); exe != nil {
+		for _, call := range an.Calls(exe, an.R(fsPkg, "FloodSub", "execPublish")) {
+			a := call.Call.Args // m, prevHop, pubMsg
+			okX = false
+			whyX = "execPublish's previous-hop argument is not the prevHopPeer recorded in the very queue entry it forwards"
+			if u, ok := a[1].(*ssa.UnOp); ok {
+				if fa, ok := u.X.(*ssa.FieldAddr); ok && an.FieldOfAddr(fa) != nil && an.FieldOfAddr(fa).Name() == "prevHopPeer" && fa.X == a[2] {
+					okX = true
+				}
+			}
+		}
+	}
+	c.Require(okX, "PROVENANCE", "floodsub Execute forwards with the recorded previous hop", nil, "", 1, "execPublish(pubMsg.prevHopPeer, pubMsg)", whyX)
+	// the stream handler names itself as the previous hop
+	okS, whyS := false, "handleValidMessage call not found in handlePublish"
+	if hp := p.Func(fsPkg, "streamHandler", "handlePublish"); hp != nil {
+		for _, call := range an.Calls(hp, an.R(fsPkg, "FloodSub", "handleValidMessage")) {
+			okS, whyS = false, "handlePublish does not pass its own stream's peer id as the previous hop"
+			if u, ok := call.Call.Args[2].(*ssa.UnOp); ok {
+				if f := an.FieldOfAddr(u.X); f != nil && f.Name() == "peerID" {
+					if fa, ok := u.X.(*ssa.FieldAddr); ok && an.IsParam(fa.X, 0) {
+						okS = true
+					}
+				}
+			}
+		}
+	}
+	c.Require(okS, "PROVENANCE", "floodsub handlePublish names the receiving stream's peer as previous hop", nil, "", 1, "handleValidMessage(ctx, s.peerID, …)", whyS)
+	sweepObligations(c)
 	// R3 atomicity: the seen-cache is consulted with one atomic test-and-set
 	methods := map[string]int{}
 	for _, fn := range p.PkgFuncs(fsPkg) {
@@ -339,6 +573,24 @@ func c29(c *an.Check) {
 		}
 	}
 	c.Require(okDel && nDel == 1, "GATE", "floodsub Execute sweep deletes a channel only when it has no subscriptions", exe, "", nDel, "delete(m.channels, ch) is dominated by len(subscriptions)==0", "a channel entry can be deleted while it still has subscriptions")
+	// only the sweep removes channel entries: it is the one place that also withdraws the announcement
+	nDelAll, badDel := 0, ""
+	for _, fn := range p.PkgFuncs(fsPkg) {
+		for _, g := range an.WithClosures(fn) {
+			for _, b := range g.Blocks {
+				for _, ins := range b.Instrs {
+					if call, ok := ins.(*ssa.Call); ok && an.BuiltinName(call) == "delete" && an.IsFieldLoad(call.Call.Args[0], chF) {
+						nDelAll++
+						if an.Outermost(g) != exe {
+							badDel = fmt.Sprintf("%s at %s removes a channel entry outside Execute's sweep: the sweep then never sees the empty channel and never tells peers Subscribe=false", an.FuncName(g), p.Pos(call.Pos()))
+						}
+					}
+				}
+			}
+		}
+	}
+	c.Require(badDel == "" && nDelAll >= 1, "WHO", "floodsub channel entries are removed only by Execute's sweep", exe, "", nDelAll, "delete(m.channels, …) occurs only in Execute", badDel)
+	sweepObligations(c)
 	floodsubLockset(c)
 }
 
